@@ -1,6 +1,16 @@
 HOOK_COMMITS = ["91ffc11"]
 NOT_APPLICABLE = {}
 ENTRIES = {
+    "C13": {
+        "text": "Theorems for every request (any method, scheme, host, port, path, query, version, header list): on an HTTP/1 "
+                "connection the target is origin-form with path/query preserved and '/' for an empty path (authority-form for "
+                "CONNECT), a Host header host[:non-default-port] is added unless the caller supplied one, other headers untouched; on "
+                "HTTP/2 the five connection headers and Host are removed, the rest preserved, CONNECT rejected; h2 iff requested or "
+                "ALPN h2. Model tied to the real layers + HttpConnection by differential runs observing the bytes on the wire.",
+        "note": "Trusted: Lean kernel; http crate parsers/printers and hyper's encoders are assumed; HTTP/2 side observed at the "
+                "Connection::send_request boundary (stub), HTTP/1 side on the wire.",
+        "design_ref": "DESIGN.md §5 C13",
+    },
     "C19": {
         "text": "Theorems for every duration, inner completion time and poll schedule: the model of TimeoutFuture::poll yields the "
                 "inner result unchanged iff the inner future resolved no later than the deadline (inner wins a tie), else the timeout "
